@@ -189,6 +189,8 @@ def run(ctx):
     spelling(ctx, "R04-b")
     whole_file(ctx, "R04-c")
     scoping(ctx, "R04-d")
+    name_scopes(ctx, "R04-g")
+    token_readers_guarded(ctx, "R04-h")
 
 
 def spelling(ctx, rid):
@@ -475,3 +477,188 @@ def scoping(ctx, rid):
             r.violation(rid, "visit_item: skip_context not restored on every path",
                         "rustfmt::skip::macros / ::attributes named on one item would stay in force for the following items "
                         "(or are lost): save/update/restore discipline broken", ["%s:%d" % (vi.file, vi.line)])
+
+
+NAME_SCOPE_VISITORS = {
+    # FmtVisitor entry points that receive a node with outer attributes and descend into code that may contain macro calls
+    # or attributes (confirmed by reading src/visitor.rs); other attributed nodes are formatted through `Rewrite` with an
+    # immutable context and cannot extend the skip context — the rule does not decide those (DESIGN §11)
+    "visit_item": "free items, statements that are items",
+    "visit_assoc_item": "impl and trait items",
+    "visit_stmt": "let / expression / macro statements",
+}
+
+
+def name_scopes(ctx, rid):
+    """R04-g: rustfmt::skip::macros / skip::attributes names reach the skip context for every attributed node the visitor descends into"""
+    from common import operand_origin
+    p, r = ctx.p, ctx.r
+    r.rule(rid, "for each visitor entry point {visit_item, visit_assoc_item, visit_stmt}: every call from which macros::rewrite_macro "
+                "or Attribute::rewrite is reachable (not through a nested format_snippet session, not through another entry point "
+                "of this table) is unreachable from the function entry without passing SkipContext::update_with_attrs, and every "
+                "path from an update to a return passes a store restoring self.skip_context")
+    targets = {fid for fid in p.fns if fid.endswith("macros::rewrite_macro")
+               or (fid.endswith("::rewrite_result") and "for rustc_ast::Attribute>" in fid)
+               or (fid.endswith("::rewrite_result") and "for [rustc_ast::Attribute]>" in fid)}
+    if len(targets) < 2:
+        r.undecidable(rid, "rewrite_macro / Attribute rewriters not found (%s)" % sorted(targets))
+        return
+    table_ids = {}
+    for name in NAME_SCOPE_VISITORS:
+        f = p.named(name, within="rustfmt_nightly::visitor::FmtVisitor")
+        if f is None:
+            r.undecidable(rid, "FmtVisitor::%s not found" % name)
+            return
+        table_ids[f.id] = f
+    session = {fid for fid in p.fns if fid.endswith("::format_snippet") or fid.endswith("::format_code_block")
+               or fid.endswith("format_input_inner")}
+    # functions from which a target is reachable without entering a nested session or a table entry point
+    cs = p.callers()
+    reach = set(targets)
+    work = list(targets)
+    while work:
+        x = work.pop()
+        for (src, kind, c) in cs.get(x, []):
+            if src in reach or src in session or src in table_ids:
+                continue
+            reach.add(src)
+            work.append(src)
+    # discovery cross-check: no other visitor method tests *outer* attributes for skip
+    for f in p.fns.values():
+        if "visitor::FmtVisitor" not in f.id or f.id in table_ids or "{closure" in f.id:
+            continue
+        for c in f.calls():
+            if c.name.endswith("::visit_attrs") and len(c.args) > 2:
+                o = operand_origin(f, c.args[2])
+                if o[0] == "const" and "Outer" in str(o[1]):
+                    r.undecidable(rid, "%s tests outer attributes with visit_attrs but is not in the table of name-scope visitors" % short(f.id))
+    n_sinks = 0
+    for fid, f in table_ids.items():
+        name = f.id.rsplit("::", 1)[-1]
+        upd = [c for c in f.calls() if c.name.endswith("SkipContext::update_with_attrs")]
+        upd_bbs = {c.bb for c in upd}
+        free = f.reachable(0, avoid_blocks=upd_bbs)
+        sinks = []
+        for c in f.calls():
+            tg = [t for (t, kind) in p.call_targets(c)]
+            tg += [x for x in c.refs if x in p.fns]
+            if any(t in reach for t in tg) and not any(t in table_ids for t in tg):
+                sinks.append(c)
+        n_sinks += len(sinks)
+        bad = [c for c in sinks if c.bb in free and c.bb not in upd_bbs]
+        r.instance(rid, "%s: names of the node's attributes scoped" % name, "ok" if not bad and upd else "violation",
+                   "%s:%d" % (f.file, f.line), "%d descending calls, %d updates" % (len(sinks), len(upd)))
+        for c in bad:
+            r.violation(rid, "%s: %s reached without the node's skip names" % (name, short(c.name).rsplit("::", 1)[-1]),
+                        "FmtVisitor::%s (%s) calls %s, from which macro calls / attributes are rewritten, on a path that has not added "
+                        "the names listed by the node's #[rustfmt::skip::macros(..)] / #[rustfmt::skip::attributes(..)] to the skip "
+                        "context: the named macros and attributes inside are reformatted" % (name, NAME_SCOPE_VISITORS[name], short(c.name)),
+                        [c.loc()])
+        if not upd:
+            if not bad:
+                r.violation(rid, "%s: never updates the skip context" % name, "no call to SkipContext::update_with_attrs", ["%s:%d" % (f.file, f.line)])
+            continue
+        # restore on every path
+        writes = [(bb, line) for (adt, var, field, mode, bb, line) in f.field_accesses()
+                  if field == "skip_context" and mode == "w" and adt.endswith("FmtVisitor")]
+        rb = {bb for bb, _ in writes if bb not in upd_bbs}
+        leak = False
+        for u in upd:
+            rs = f.reachable(u.target if u.target is not None else u.bb, avoid_blocks=rb)
+            if any(x in rs for x in f.returns()):
+                leak = True
+        r.instance(rid, "%s: skip context restored" % name, "ok" if not leak else "violation", "%s:%d" % (f.file, f.line))
+        if leak:
+            r.violation(rid, "%s: skip context not restored on every path" % name,
+                        "a return is reachable from update_with_attrs without a store to self.skip_context: names listed on one "
+                        "node stay in force for its later siblings", ["%s:%d" % (f.file, f.line)])
+    r.floor(rid, n_sinks, 10, "descending calls in the name-scope visitors")
+
+
+def token_readers_guarded(ctx, rid):
+    """R04-h: whoever reads the argument tokens of a macro call in order to rewrite it has passed the skip-name test"""
+    p, r = ctx.p, ctx.r
+    tab = ctx.table("C04")
+    exc = {e["fn"]: e["reason"] for e in tab.get("token_reader_exception", [])}
+    r.rule(rid, "every function that reads MacCall.args.tokens is name-guarded: the read is dominated by the false edge of a "
+                "SkipNameContext::skip test on skip_context.macros in the function itself, or every call site of the function "
+                "(closures: their construction site) lies in such a guarded region, recursively (depth ≤ 5); module-discovery "
+                "parsers are table exceptions")
+    readers = []
+    for f in p.fns.values():
+        if not f.id.startswith("rustfmt_nightly::"):
+            continue
+        acc = list(f.field_accesses())
+        rd = [(bb, line) for (adt, var, field, mode, bb, line) in acc if field == "tokens" and adt.endswith("DelimArgs") and mode == "r"]
+        via = any(field == "args" and adt.endswith("::MacCall") for (adt, var, field, mode, bb, line) in acc)
+        if rd and via:
+            readers.append((f, rd))
+    cs = p.callers()
+
+    def guard_edges(fn):
+        out = []
+        for g in fn.calls():
+            if not g.name.endswith("SkipNameContext::skip") or not g.args or g.args[0][0] == "k":
+                continue
+            fl = {y[2] for y in fn.derived_from(g.args[0][1][0])["fields"]}
+            for e in g.args[0][1][1]:
+                if isinstance(e, (list, tuple)) and e[0] == "f":
+                    fl.add(e[4])
+            if "macros" not in fl:
+                continue
+            for (sw, t_true, t_false) in bool_branches(fn, g.dest[0]):
+                out.append((sw, t_true, t_false))
+        return out
+
+    def block_guarded(fn, bb):
+        for (sw, t_true, t_false) in guard_edges(fn):
+            if edge_dominates(fn, (sw, t_false), bb) and bb not in fn.reachable(t_true, avoid_edges=[(sw, t_false)]):
+                return True
+        return False
+
+    def fn_guarded(fid, depth, seen):
+        """every way into fid comes from a guarded region"""
+        if depth > 5 or fid in seen:
+            return False, ["%s: depth/recursion limit" % short(fid)]
+        seen = seen | {fid}
+        sites = cs.get(fid, [])
+        if not sites:
+            if getattr(p.fns[fid], "vis", None) != "pub":
+                return True, []      # crate-private and never called: dead code
+            return False, ["%s has no callers (entry point)" % short(fid)]
+        why = []
+        for (src, kind, c) in sites:
+            g = p.fns[src]
+            if c is not None:
+                bbs = [c.bb]
+            else:
+                bbs = [bb for bb, i, s in g.stmts() if s[0] == "=" and s[2][0] == "agg" and isinstance(s[2][1], list)
+                       and s[2][1][0] == "closure" and s[2][1][1] == fid]
+                if not bbs:
+                    continue
+            for bb in bbs:
+                if block_guarded(g, bb):
+                    continue
+                ok, w = fn_guarded(src, depth + 1, seen)
+                if not ok:
+                    why.append("%s at %s:%s" % (short(src), g.file, c.line if c is not None else g.line))
+                    why.extend(w[:2])
+        return (not why), why
+
+    n = 0
+    for f, rd in sorted(readers, key=lambda x: x[0].id):
+        name = short(f.id)
+        if f.id in exc:
+            r.instance(rid, "%s reads macro argument tokens" % name, "exception", "%s:%d" % (f.file, f.line), exc[f.id], nontrivial=False)
+            continue
+        n += 1
+        own = all(block_guarded(f, bb) for bb, _ in rd)
+        ok, why = (True, []) if own else fn_guarded(f.id, 0, frozenset())
+        r.instance(rid, "%s reads macro argument tokens" % name, "ok" if ok else "violation", "%s:%d" % (f.file, f.line),
+                   "own guard" if own else "guarded at every caller")
+        if not ok:
+            r.violation(rid, "%s reads macro arguments without the skip-name test" % name,
+                        "%s reads MacCall.args.tokens and can be reached without skip_context.macros.skip(name) having answered "
+                        "false (%s): a macro named by rustfmt::skip::macros / skip_macro_invocations is rewritten"
+                        % (name, "; ".join(why[:4])), ["%s:%d" % (f.file, l) for _, l in rd][:3])
+    r.floor(rid, n, 3, "non-excepted readers of MacCall.args.tokens")
